@@ -81,6 +81,9 @@ func c07cli(c *h.Ctx) {
 			xcase{append(append([]string{}, q...), "ok1", "ok2"), "ok1 ok2", false}, xcase{append(append([]string{}, q...), "run", "ok1", "bad-before", "ok2"), "ok1", true},
 			xcase{append(append([]string{}, q...), "no-such-target", "ok1"), "", true})
 	}
+	// a command line that ends in a bare `--` (a wrapper script with no extra arguments): nothing after it, no target lost or added
+	xs = append(xs, xcase{[]string{"-o", "raw", "ok1", "--"}, "ok1", false}, xcase{[]string{"-o", "raw", "ok1", "ok2", "--"}, "ok1 ok2", false},
+		xcase{[]string{"-o", "raw", "run", "ok1", "--"}, "ok1", false}, xcase{[]string{"-o", "raw", "pok", "--"}, "pa pb", false}, xcase{[]string{"-o", "raw", "bad", "ok1", "--"}, "bad", true})
 	xs = append(xs, xcase{[]string{"-o", "raw", "ptol", "ok1"}, "pc ok1", false}, xcase{[]string{"-o", "raw", "ptol", "pbad", "ok1"}, "pc", true}, xcase{[]string{"-o", "raw", "run", "ptol", "pbad", "ok1"}, "pc", true})
 	h.Par(len(xs), 8, func(i int) {
 		x := xs[i]
